@@ -6,6 +6,7 @@ import XonshVerif.Model.Peg
 import XonshVerif.Proofs.PegConsume
 import XonshVerif.Proofs.PegSpec
 import XonshVerif.Proofs.PegSpecDet
+import XonshVerif.Proofs.PegSpecDeco
 import XonshVerif.Proofs.PegComplete
 import XonshVerif.Proofs.PegTotal
 import XonshVerif.Proofs.PegMono
@@ -295,6 +296,35 @@ theorem answers_do_not_depend_on_cache_or_fuel (prog : Prog) (w : Array RTok) (h
     | fail m => simp only [Res.verdict] at hb; injection hb with hb; subst hb; exact h2.2.1 m rfl
     | _ => simp [Res.verdict] at hb
   exact SRule.det d1 d2
+
+/-- **memo_flags_do_not_change_answers.**  Two plain programs with the same rule bodies - the same grammar with and without
+    `(memo)` flags, say - give the same answer for every rule at every position, whatever the fuel and the (sound) caches,
+    whenever both answer: the semantics does not look at decorators (`srule_iff_of_sameBodies`), each run is sound for it,
+    and it is deterministic. -/
+theorem memo_flags_do_not_change_answers (P Q : Prog) (w : Array RTok) (hb : SameBodies P Q) (hP : plainB P = true) (hQ : plainB Q = true)
+    (id fuel1 fuel2 : Nat) (s1 s2 : St) (hc1 : CacheOK s1) (hs1 : CSound P w s1) (hc2 : CacheOK s2) (hs2 : CSound Q w s2) (hpos : s1.pos = s2.pos)
+    (a b : Option Nat) (ha : (execRule P w fuel1 id s1).1.verdict = some a) (hb' : (execRule Q w fuel2 id s2).1.verdict = some b) :
+    a = b := by
+  have h1 := recogniser_sound_for_peg_semantics P w hP fuel1 id s1 hc1 hs1
+  have h2 := recogniser_sound_for_peg_semantics Q w hQ fuel2 id s2 hc2 hs2
+  rw [hpos] at h1
+  have d1 : SRule P w id s2.pos a := by
+    generalize (execRule P w fuel1 id s1).1 = r at ha h1
+    cases r with
+    | ok e => simp only [Res.verdict] at ha; injection ha with ha; subst ha; exact h1.1 e rfl
+    | fail m => simp only [Res.verdict] at ha; injection ha with ha; subst ha; exact h1.2.1 m rfl
+    | _ => simp [Res.verdict] at ha
+  have d2 : SRule Q w id s2.pos b := by
+    generalize (execRule Q w fuel2 id s2).1 = r at hb' h2
+    cases r with
+    | ok e => simp only [Res.verdict] at hb'; injection hb' with hb'; subst hb'; exact h2.1 e rfl
+    | fail m => simp only [Res.verdict] at hb'; injection hb' with hb'; subst hb'; exact h2.2.1 m rfl
+    | _ => simp [Res.verdict] at hb'
+  exact SRule.det (SRule.transport hb d1) d2
+
+/-- non-vacuity: the example program without its `(memo)` flag is another plain program with the same bodies -/
+example : SameBodies plainProg (dropMemo plainProg) := dropMemo_sameBodies plainProg
+example : plainB (dropMemo plainProg) = true := by decide +kernel
 
 /-- **recogniser_complete_for_peg_semantics.**  The converse, on the pure fragment (`pureB`: plain, every action truthy, no
     rule that peeks at its first token's location): whenever the semantics derives an outcome `r` for a rule at a position,
